@@ -26,11 +26,22 @@ func ModelName(mode string, local, domain string) string {
 	case "local":
 		return strings.ToLower(local)
 	case "full":
-		return strings.ToLower(local) + "@" + strings.ToLower(domain)
+		return strings.ToLower(local) + "@" + ModelDomain(domain)
 	case "domain":
-		return strings.ToLower(domain)
+		return ModelDomain(domain)
 	}
 	return ""
+}
+
+// ModelDomain is the case-independent form of a domain used in mailbox names.  The tag of an
+// IPv6 literal is spelled "IPv6:" (the spelling the repository's own naming tests pin down);
+// everything else is lower case.
+func ModelDomain(domain string) string {
+	d := strings.ToLower(domain)
+	if strings.HasPrefix(d, "[ipv6:") {
+		d = "[IPv6:" + d[6:]
+	}
+	return d
 }
 
 var Domains = []string{"alpha.test", "beta.test", "gamma.example", "discard.test", "store.test",
